@@ -31,7 +31,7 @@ HEADER = ('From Coq Require Import List Bool Arith.\n'
           'From PT Require Import Tab.Branch.\n'
           'Import ListNotations.\n')
 
-THEOREMS = ['C06_fresh', 'C06_fresh_heap', 'C06_copy_independent', 'C06_old_refuted',
+THEOREMS = ['C06_fresh', 'C06_fresh_heap', 'C06_witness_fresh', 'C06_copy_independent', 'C06_old_refuted',
             'C06_any_sentence_key_refuted']
 
 # ---- node alphabets ------------------------------------------------------------------------
@@ -413,7 +413,7 @@ def witness_cases(args, rng):
     for n in names:
         src = wit_examples if args.tier == 'quick' else examples
         cases.extend([n, e] for e in src)
-    nrand = 40 if args.tier == 'quick' else 400
+    nrand = 40 if args.tier == "quick" else 250
     for n in names:
         modal = bool(logics.get(n, {}).get('modal'))
         for _ in range(nrand):
@@ -429,7 +429,7 @@ def check_witnesses(chk: Check, args, rng, maxi):
     from concurrent.futures import ThreadPoolExecutor
     with ThreadPoolExecutor(max_workers=nproc) as ex:
         outs = list(ex.map(lambda p: probe_json('probe_witness.py', stdin=json.dumps(
-            dict(cases=p, max_steps=120 if args.tier == 'quick' else 250, export_branches=60)), timeout=3000), parts))
+            dict(cases=p, max_steps=120 if args.tier == "quick" else 200, export_branches=60)), timeout=3000), parts))
     static = {}
     intro_seen = {}
     n_intro = 0
@@ -546,7 +546,7 @@ def run(args) -> int:
     chk.trusted += ['tools/c06.py: translation of a mapping spec into the model node (coq_node) and of Coq answers back',
                     'tools/probe_branch.py / probe_witness.py: observation of real Branch / Tableau objects']
     chk.notes['explanation'] = (
-        'obligations: Print Assumptions of the five theorems; Constant.first/maxi in range; the Branch model agrees with '
+        'obligations: Print Assumptions of the six theorems; Constant.first/maxi in range; the Branch model agrees with '
         'the real Branch on every exhaustive and random history (every branch object of the heap compared, so aliasing '
         'between a copy and its source would show); at least one witness introduction observed. Theorems hold for the '
         'model for ALL histories and all maxi; the run only establishes that the model is the code.')
